@@ -54,6 +54,9 @@ _REAL = {
     "ftruncate": os.ftruncate,
     "lseek": os.lseek,
     "fstat": os.fstat,
+    "chmod": os.chmod,
+    "utime": os.utime,
+    "scandir": os.scandir,
     "webbrowser_get": webbrowser.get,
 }
 FD_BASE = 1 << 20      # simulated file descriptors live above any real one
@@ -641,6 +644,73 @@ class SimWorld:
             return _REAL["fstat"](fd)
         return os.stat_result((statmod.S_IFREG | 0o644, 2, 1, 1, 0, 0, len(raw.node.data), 0, 0, 0))
 
+    def chmod(self, path, mode, **kw):
+        p = self.resolve(path) if not isinstance(path, int) else None
+        if p is None and not (isinstance(path, int) and path in self.fds):
+            return _REAL["chmod"](path, mode, **kw)
+        return None
+
+    def utime(self, path, times=None, **kw):
+        p = self.resolve(path) if not isinstance(path, int) else None
+        if p is None:
+            return _REAL["utime"](path, times, **kw)
+        n = self.files.get(p)
+        if n is None and p not in self.dirs:
+            raise FileNotFoundError(errno.ENOENT, "No such file or directory", p)
+        if n is not None:
+            n.mtime = float(times[1]) if times else self.now
+
+    def scandir(self, path="."):
+        p = self.resolve(path)
+        if p is None:
+            return _REAL["scandir"](path)
+        names = self.listdir(p)
+        fs = self
+
+        class _Entry:
+            def __init__(self, name):
+                self.name = name
+                self.path = posixpath.join(os.fspath(path), name)
+                self._p = posixpath.join(p, name)
+
+            def is_dir(self, follow_symlinks=True):
+                return self._p in fs.dirs
+
+            def is_file(self, follow_symlinks=True):
+                return self._p in fs.files
+
+            def is_symlink(self):
+                return False
+
+            def stat(self, follow_symlinks=True):
+                return fs.stat(self._p)
+
+            def inode(self):
+                return 1
+
+            def __fspath__(self):
+                return self.path
+
+        class _Scan:
+            def __init__(self, entries):
+                self._it = iter(list(entries))
+
+            def __iter__(self):
+                return self
+
+            def __next__(self):
+                return next(self._it)
+
+            def __enter__(self):
+                return self
+
+            def __exit__(self, *a):
+                return False
+
+            def close(self):
+                pass
+        return _Scan(_Entry(nm) for nm in names)
+
     # ---- clock ----------------------------------------------------------------------------------------
     def time(self):
         return self.now
@@ -678,6 +748,9 @@ class SimWorld:
         os.ftruncate = self.ftruncate
         os.lseek = self.lseek
         os.fstat = self.fstat
+        os.chmod = self.chmod
+        os.utime = self.utime
+        os.scandir = self.scandir
         import tempfile
         self._saved_tempdir = tempfile.tempdir
         tempfile.tempdir = self.tmp          # tempfile.gettempdir()/mkstemp()/NamedTemporaryFile land in SimFS
@@ -716,6 +789,9 @@ class SimWorld:
         os.ftruncate = _REAL["ftruncate"]
         os.lseek = _REAL["lseek"]
         os.fstat = _REAL["fstat"]
+        os.chmod = _REAL["chmod"]
+        os.utime = _REAL["utime"]
+        os.scandir = _REAL["scandir"]
         import tempfile
         tempfile.tempdir = self._saved_tempdir
         tempfile._name_sequence = self._saved_names
